@@ -1,5 +1,5 @@
 SPECIFICATION Spec
-CONSTANTS MaxN = 5 Iters = 4
+CONSTANTS MaxN = 5 Iters = 3
 INVARIANTS InvNoRepeat InvOncePerIteration InvNoCrash InvHistLegal InvHistPrefix
 VIEW View
 CHECK_DEADLOCK FALSE
